@@ -17,6 +17,8 @@ pub struct MmapDbcFile {
     version: DbcVersion,
     /// The DBC header
     header: DbcHeader,
+    /// Offset of the string block (depends on the version-specific header size)
+    string_block_offset: u64,
 }
 
 impl MmapDbcFile {
@@ -32,15 +34,24 @@ impl MmapDbcFile {
         let version = DbcVersion::detect(&mut cursor)?;
 
         // Parse the header based on the version
-        let header = match version {
-            DbcVersion::WDBC => DbcHeader::parse(&mut cursor)?,
+        let (header, string_block_offset) = match version {
+            DbcVersion::WDBC => {
+                let h = DbcHeader::parse(&mut cursor)?;
+                (h, h.string_block_offset())
+            }
             DbcVersion::WDB2 => {
                 let wdb2_header = Wdb2Header::parse(&mut cursor)?;
-                wdb2_header.to_dbc_header()
+                (
+                    wdb2_header.to_dbc_header(),
+                    wdb2_header.string_block_offset(),
+                )
             }
             DbcVersion::WDB5 => {
                 let wdb5_header = Wdb5Header::parse(&mut cursor)?;
-                wdb5_header.to_dbc_header()
+                (
+                    wdb5_header.to_dbc_header(),
+                    wdb5_header.string_block_offset(),
+                )
             }
             _ => {
                 return Err(Error::InvalidHeader(format!(
@@ -53,6 +64,7 @@ impl MmapDbcFile {
             mmap,
             version,
             header,
+            string_block_offset,
         })
     }
 
@@ -84,10 +96,10 @@ impl MmapDbcFile {
     /// Get the string block from the memory-mapped file
     pub fn string_block(&self) -> Result<StringBlock> {
         let mut cursor = Cursor::new(self.as_slice());
-        cursor.seek(SeekFrom::Start(self.header.string_block_offset()))?;
+        cursor.seek(SeekFrom::Start(self.string_block_offset))?;
         StringBlock::parse(
             &mut cursor,
-            self.header.string_block_offset(),
+            self.string_block_offset,
             self.header.string_block_size,
         )
     }
